@@ -67,6 +67,7 @@ PROPS = {
         assumptions=["str::split(\"::\"), strip_prefix, is_ascii behave as their documentation says (modelled in SIM.Model.Path)"],
     ),
     'C06': dict(
+        translators=['extract_codec_tags.py'],
         streams=[dict(name='codec', quick=1500, thorough=15000, filter=only('C06:'))],
         rule=CODEC_RULE,
         trusted_base=COMMON_TB + ["parity-scale-codec 3.7.5 is the party being compared with (its derive output for the scale-info types and its Compact/Vec/String/Option impls are modelled in SIM.Model.Codec)"],
